@@ -56,7 +56,8 @@ def render(prog, exp):
     return "\n".join(hdr + body + ["fwd:"]) + "\n", image
 
 
-def run(rep, bld, tier):
+def run(rep, bld, tier, only=None):
+    """only: restrict the replay to these modes (shapes over a single mode); used by C12 for the IFUSED ladder"""
     for cfg, must_fail in (("PassModes_MC.cfg", False), ("PassModes_MC_dev.cfg", True)):
         r = tlc.run("PassModes_MC", cfg, workers=2, timeout=600, mem="2g")
         if r.error and not r.violation:
@@ -72,14 +73,18 @@ def run(rep, bld, tier):
     # the generator works on three abstract mode names; every shape is instantiated with the real modes
     names = sorted({s["m"] for o in shapes for s in o["prog"] if s["m"]})
     modes = QUICK_MODES if tier == "quick" else list(MODES)
+    if only:
+        modes = list(only)
+        shapes = [o for o in shapes if len({s["m"] for s in o["prog"] if s["m"]}) <= len(modes)]
     r = rng("c08/passmodes")
     jobs = []
     for o in shapes:
         if not any(s["k"] == "probe" for s in o["prog"]):
             continue
         for rep_i in range(1 if tier == "quick" else 6):
-            pick = r.sample(modes, len(names))
-            ren = dict(zip(names, pick))
+            used_names = sorted({s["m"] for s in o["prog"] if s["m"]})
+            pick = r.sample(modes, len(used_names))
+            ren = dict(zip(used_names, pick))
             prog = [dict(s, m=ren.get(s["m"], "")) for s in o["prog"]]
             src, image = render(prog, o["exp"])
             jobs.append((prog, o, src, image))
